@@ -151,6 +151,13 @@ def nav (env : Env) (anch : Anch) (cur : Sch) (s : Nat) : List Step → Option (
     | some (a', c', s') => nav env a' c' s' ps
     | none => none
 
+/-- follow a path and return the location reached: its anchors map, schema and start -/
+def navTo (env : Env) (anch : Anch) (cur : Sch) (s : Nat) : List Step → Option (Anch × Sch × Nat)
+  | [] => some (anch, cur, s)
+  | p :: ps => match navStep env anch cur s p with
+    | some (a', c', s') => navTo env a' c' s' ps
+    | none => none
+
 /-- the record as the library sees it: layout of the emitted schema from offset 0 -/
 def navRecord (env : Env) (it : Item) (path : List Step) : Option (Nat × Nat) :=
   nav env (anchors env (emit it) 0) (emit it) 0 path
